@@ -360,6 +360,20 @@ def replay(ctx, mod, path):
             if not ok:
                 print(f"VIOLATION property={ctx.pid} replay={path}")
                 return 1
+        # laws that relate several scripts (or several runs) cannot be judged from one input alone: there the replay
+        # compares what the input does now with the observation that was recorded, and judged, when the violation was found
+        rj = p / "replay.json" if p.is_dir() else None
+        if rj is not None and rj.exists():
+            try:
+                rec = (json.loads(rj.read_text()).get("details") or {}).get("cli")
+            except Exception:
+                rec = None
+            if isinstance(rec, dict) and all(rec.get(k) == r.get(k) for k in ("stdout", "status", "stderr")):
+                print("recorded: the observation judged a violation when this replay was written is reproduced exactly")
+                print(f"VIOLATION property={ctx.pid} replay={path}")
+                return 1
+            if isinstance(rec, dict):
+                print("recorded: the input no longer behaves as it did when the violation was found")
         return 0
     print((p / "replay.json").read_text() if p.is_dir() else p.read_text())
     return 0
